@@ -69,10 +69,22 @@ def wf_statement(v):
     return wf(v, tmp=None)
 
 
-def u1_key(strs, other):
-    """failures on values containing U+0001 belong to the finding of that name (the temporary character
-    of the three-replace cleanse); every other failure is its own class"""
-    return "value-contains-U+0001" if any("\x01" in x for x in strs) else other
+def subst_nv(v, a, b):
+    return v.replace(a, b) if isinstance(v, str) else [subst_nv(x, a, b) for x in v]
+
+
+def u1_key(r, other):
+    """class of a failure on the replay record r: the finding "value-contains-U+0001" (the temporary character of
+    the three-replace cleanse) when the input contains U+0001 AND the same input with every U+0001 replaced by an
+    ordinary letter satisfies the property, i.e. U+0001 is the cause; otherwise the failure is its own class"""
+    vals = [x for k, x in r.items() if k != "fn"]
+    if not any("\x01" in s for x in vals for s in strings_of(x)):
+        return other
+    r2 = {k: (x if k == "fn" else subst_nv(x, "\x01", "a")) for k, x in r.items()}
+    try:
+        return "value-contains-U+0001" if holds(r2) else other
+    except Exception:
+        return other
 
 
 def has_unescaped(s, seps="|;"):
@@ -97,6 +109,17 @@ def ends_escaped(s):
         else:
             i += 1
     return False
+
+
+RAISED = "<raised>"
+
+
+def safe(fn, *a):
+    """implementation call that may raise on a mutated tree: the exception becomes a value no oracle accepts"""
+    try:
+        return fn(*a)
+    except Exception as e:
+        return (RAISED, type(e).__name__)
 
 
 def inert_expect(cp, lpre, rpost, d):
@@ -182,7 +205,14 @@ def run(ctx):
                          f"(1 12 {enc_str(s.strip())})"]
             outs = m.ask_many(reqs)
         for i, s in enumerate(chunk):
-            im = impl_all(s)
+            try:
+                im = impl_all(s)
+            except Exception as e:
+                # a cell function raising on a plain string: the cell is then neither a string nor a list
+                v.coverage["evaluations"] += 1
+                rr = dict(fn="split_into_lists", s=s)
+                v.failing_input(u1_key(rr, "cell-function-raises"), f"a CellParser function raised {type(e).__name__} on {s!r}", rr)
+                continue
             v.coverage["evaluations"] += 1
             if has_unescaped(s) or "\\" in s:
                 nontrivial.add(s)
@@ -203,9 +233,10 @@ def run(ctx):
             if has_unescaped(s) != isinstance(r, list):
                 v.failing_input("string-vs-list", f"split_into_lists({s!r}) = {r!r}", dict(fn="split_into_lists", s=s))
             # oracle (C08-1): every string survives escape + split, trimmed
-            back = cp.split_into_lists(cp.join_from_lists(s))
+            back = safe(lambda: cp.split_into_lists(cp.join_from_lists(s)))
             if back != s.strip():
-                v.failing_input(u1_key([s], "string-roundtrip"), f"split(join({s!r})) = {back!r}", dict(fn="roundtrip", value=s))
+                rr = dict(fn="roundtrip", value=s)
+                v.failing_input(u1_key(rr, "string-roundtrip"), f"split(join({s!r})) = {back!r}", rr)
 
     # ------------------------------------------------ nested values: join, wf, round trip
     n_vals = (60000 if thorough else 6000) * ctx.scale
@@ -267,12 +298,13 @@ def run(ctx):
             if j is None:
                 v.failing_input("join-error", f"join_from_lists({x!r}) raised", dict(fn="roundtrip", value=x))
                 continue
-            back = cp.split_into_lists(j)
+            back = safe(cp.split_into_lists, j)
             # parse (= strip the cell, then split) additionally needs that no list ends in a
             # *blank* element: the domain of the statement is wf(x) and wf(trim(x))
-            back_parse = cp.parse(j) if wf_statement(trim(x)) else trim(x)
+            back_parse = safe(cp.parse, j) if wf_statement(trim(x)) else trim(x)
             if back != trim(x) or back_parse != trim(x):
-                v.failing_input(u1_key(strings_of(x), "list-roundtrip"), f"split(join({x!r})) = {back!r}", dict(fn="roundtrip", value=x))
+                rr = dict(fn="roundtrip", value=x)
+                v.failing_input(u1_key(rr, "list-roundtrip"), f"split(join({x!r})) = {back!r}", rr)
     ctx.stats["nested_values"] = dist
 
     # ------------------------------------------------ random long strings (incl. unicode spaces)
@@ -288,7 +320,10 @@ def run(ctx):
         for i, s in enumerate(longs):
             v.coverage["evaluations"] += 1
             mo = dec_nv(parse_sexp(outs[i]))
-            im = cp.split_into_lists(s)
+            im = safe(cp.split_into_lists, s)
+            if isinstance(im, tuple) and im[:1] == (RAISED,):
+                rr = dict(fn="split_into_lists", s=s)
+                v.failing_input(u1_key(rr, "cell-function-raises"), f"split_into_lists raised {im[1]} on {s!r}", rr)
             if mo != im:
                 ctx.disagree("split_into_lists (long/unicode)", repr(s), repr(mo), repr(im))
             ms = dec_str(parse_sexp(outs[len(longs) + i]))
@@ -317,14 +352,16 @@ def run(ctx):
         tmpl = pre + "{{x|escape}}" + post
         r = run_cli_mode(cp.parse, tmpl, {"x": d})
         if r[0] != "ok":
-            v.failing_input(u1_key([pre, post, d], "template-error"), f"parse({tmpl!r}, x={d!r}) -> {r}", dict(fn="inert", pre=pre, post=post, d=d))
+            rr = dict(fn="inert", pre=pre, post=post, d=d)
+            v.failing_input(u1_key(rr, "template-error"), f"parse({tmpl!r}, x={d!r}) -> {r}", rr)
             continue
         got = r[1]
         # expanded before split: parse strips the *template*, renders, then splits the text
         lpre, rpost = pre.lstrip(), post.rstrip()
         expanded = lpre + CellParser.escape_string(d) + rpost
-        if got != cp.split_into_lists(expanded):
-            v.failing_input(u1_key([pre, post, d], "expand-then-split"), f"parse({tmpl!r}, x={d!r}) = {got!r}", dict(fn="inert", pre=pre, post=post, d=d))
+        if got != safe(cp.split_into_lists, expanded):
+            rr = dict(fn="inert", pre=pre, post=post, d=d)
+            v.failing_input(u1_key(rr, "expand-then-split"), f"parse({tmpl!r}, x={d!r}) = {got!r}", rr)
         if m:
             mo = dec_nv(parse_sexp(m.ask(f"(1 2 {enc_str(expanded)})")))
             if mo != got:
@@ -338,10 +375,10 @@ def run(ctx):
             # under VERIF_SEED=1.  Empty data is still covered by expand-then-split above and by the
             # theorem escape_inert, which speaks about separator positions.)
             n_inert += 1
-            want = inert_expect(cp, lpre, rpost, d)
+            want = safe(inert_expect, cp, lpre, rpost, d)
             if got != want:
-                v.failing_input(u1_key([pre, post, d], "escape-not-inert"), f"parse({tmpl!r}, x={d!r}) = {got!r}, expected {want!r}",
-                                dict(fn="inert", pre=pre, post=post, d=d))
+                rr = dict(fn="inert", pre=pre, post=post, d=d)
+                v.failing_input(u1_key(rr, "escape-not-inert"), f"parse({tmpl!r}, x={d!r}) = {got!r}, expected {want!r}", rr)
     ctx.stats["inertness_cases"] = n_inert
 
     v.coverage["distinct_nontrivial"] = len(nontrivial)
@@ -360,20 +397,40 @@ def run(ctx):
     ]
 
 
-def replay(rep):
+def holds(r):
+    """the property's oracle on one replay record (the same judgements as in run)"""
     from rpft.parsers.common.cellparser import CellParser
 
     cp = CellParser()
-    r = rep["replay"]
     if r["fn"] == "roundtrip":
         x = r["value"]
-        ok = cp.split_into_lists(cp.join_from_lists(x)) == trim(x)
+        try:
+            j = cp.join_from_lists(x)
+        except Exception:
+            return False
+        ok = cp.split_into_lists(j) == trim(x)
         if wf_statement(trim(x)):
-            ok = ok and cp.parse(cp.join_from_lists(x)) == trim(x)
+            ok = ok and cp.parse(j) == trim(x)
         return ok
     if r["fn"] == "split_into_lists":
-        return has_unescaped(r["s"]) == isinstance(cp.split_into_lists(r["s"]), list)
+        try:
+            cp.cleanse(r["s"])
+            return has_unescaped(r["s"]) == isinstance(cp.split_into_lists(r["s"]), list)
+        except Exception:
+            return False
     if r["fn"] == "inert":
-        got = cp.parse(r["pre"] + "{{x|escape}}" + r["post"], {"x": r["d"]})
-        return got == inert_expect(cp, r["pre"].lstrip(), r["post"].rstrip(), r["d"])
+        pre, post, d = r["pre"], r["post"], r["d"]
+        res = run_cli_mode(cp.parse, pre + "{{x|escape}}" + post, {"x": d})
+        if res[0] != "ok":
+            return False
+        lpre, rpost = pre.lstrip(), post.rstrip()
+        if res[1] != cp.split_into_lists(lpre + CellParser.escape_string(d) + rpost):
+            return False
+        if not ends_escaped(lpre) and d != "":
+            return res[1] == inert_expect(cp, lpre, rpost, d)
+        return True
     return True
+
+
+def replay(rep):
+    return holds(rep["replay"])
